@@ -27,7 +27,7 @@ func init() { core.Register(c20{}) }
 func (c20) ID() string    { return "C20" }
 func (c20) Level() string { return "exploration" }
 func (c20) Rule() string {
-	return "(a) race detector: a -race build of the harness runs real starts and shutdowns: seeded graphs with a harness scanner that fails for >= 2 components whose failing goroutines are gated to overlap (plus non-failing, yielding scanner calls), scanners and closers that log, closers failing concurrently behind gates, with the quiet logger and with the repository's own logger; every 'WARNING: DATA RACE' block in the GORACE log is parsed, reports are de-duplicated by the pair of top-most go-kid/ioc frames; any report with a go-kid/ioc frame is a violation (a report without one is a harness bug and makes the run inconclusive). (b) linearizability: concurrent histories of sync2.Map {Load, Store, LoadOrStore, LoadOrStoreFn (the supplied function yields), Delete, Range} and of list.NewConcurrentSets / list.NewGenericConcurrentSets {Put, Exists, Remove, ToArray} from 2..8 goroutines x 4..10 operations over 1..3 keys with unique written values, recorded at the client boundary with one shared atomic counter as clock (call before invoking, return after the reply) and checked by porcupine v1.3.0 against a per-key sequential model (partitioned by key; Range / ToArray contribute one read per key of the universe over the enclosing interval, which is all sync.Map promises); additionally the direct invariant that among concurrent LoadOrStore / LoadOrStoreFn callers on a fresh key exactly one is told loaded=false. non-trivial = history with >= 2 operations on one key that overlap in time; distinct = history signature (ops + interleaving of call/return stamps); race build additionally: scanner invocations for healthy components held in flight while others fail (App.Run must not return before they have), and sync2.Map with three-word values (every value read was stored by somebody); race build also: concurrent GetMetaOrRegister on the real definition registry"
+	return "(a) race detector: a -race build of the harness runs real starts and shutdowns: seeded graphs with a harness scanner that fails for >= 2 components whose failing goroutines are gated to overlap (plus non-failing, yielding scanner calls), scanners and closers that log, closers failing concurrently behind gates, with the quiet logger and with the repository's own logger; every 'WARNING: DATA RACE' block in the GORACE log is parsed, reports are de-duplicated by the pair of top-most go-kid/ioc frames; any report with a go-kid/ioc frame is a violation (a report without one is a harness bug and makes the run inconclusive). (b) linearizability: concurrent histories of sync2.Map {Load, Store, LoadOrStore, LoadOrStoreFn (the supplied function yields), Delete, Range} and of list.NewConcurrentSets / list.NewGenericConcurrentSets {Put, Exists, Remove, ToArray} from 2..8 goroutines x 4..10 operations over 1..3 keys with unique written values, recorded at the client boundary with one shared atomic counter as clock (call before invoking, return after the reply) and checked by porcupine v1.3.0 against a per-key sequential model (partitioned by key; Range / ToArray contribute one read per key of the universe over the enclosing interval, which is all sync.Map promises); additionally the direct invariant that among concurrent LoadOrStore / LoadOrStoreFn callers on a fresh key exactly one is told loaded=false. non-trivial = history with >= 2 operations on one key that overlap in time; distinct = history signature (ops + interleaving of call/return stamps); race build additionally: scanner invocations for healthy components held in flight while others fail (App.Run must not return before they have), and sync2.Map with three-word values (every value read was stored by somebody); race build also: concurrent GetMetaOrRegister on the real definition registry; histories whose operations never return are reported (stall detection in scheduler yields and seconds)"
 }
 func (c20) Assumptions() []string {
 	return []string{
@@ -59,7 +59,7 @@ func (p c20) utilityRace(c *core.Ctx) {
 	nOps := 30 + c.Rng.Intn(40)
 	var wg sync.WaitGroup
 	var torn atomic.Int64
-	var reads atomic.Int64
+	var reads, opsDone atomic.Int64
 	var tornExample atomic.Value
 	start := make(chan struct{})
 	chk := func(w wide) {
@@ -104,6 +104,7 @@ func (p c20) utilityRace(c *core.Ctx) {
 					m.Range(func(_ int, w wide) bool { chk(w); return true })
 					ms.Range(func(_ string, x any) bool { _ = fmt.Sprint(x); return true })
 				}
+				opsDone.Add(1)
 				if rng.Intn(4) == 0 {
 					runtime.Gosched()
 				}
@@ -134,7 +135,10 @@ func (p c20) utilityRace(c *core.Ctx) {
 		}(g)
 	}
 	close(start)
-	wg.Wait()
+	if !waitOrStall(&wg, func() int64 { return reads.Load() + opsDone.Load() }) {
+		c.Fail("", "sync2.Map: operations issued concurrently never returned (blocked for ever)", map[string]any{"goroutines": nG, "ops_each": nOps, "keys": nKeys})
+		return
+	}
 	c.Count("utility_race_histories", 1)
 	c.Count("concurrent_logger_lines", 48)
 	c.Count("utility_race_reads_checked", int(reads.Load()))
@@ -587,7 +591,11 @@ func (p c20) Run(c *core.Ctx) {
 		}(g)
 	}
 	close(startGate)
-	wg.Wait()
+	if !waitOrStall(&wg, func() int64 { return atomic.LoadInt64(&clock) }) {
+		c.Fail("", fmt.Sprintf("%s: operations of a concurrent history never returned (no operation completed during 3 million scheduler yields and 5 s): an operation that blocks for ever has no place in any sequential order", []string{"sync2.Map", "list.ConcurrentSets", "generic concurrent set"}[target]),
+			map[string]any{"goroutines": nG, "keys": nKeys, "operations_begun": atomic.LoadInt64(&clock)})
+		return
+	}
 	c.Count("histories", 1)
 	if burst {
 		c.Count("burst_histories", 1)
